@@ -349,6 +349,10 @@ func c05Run(c *verifeng.Chooser, f *c05fix, env *verifhfs.Env, mode string, dept
 
 	for d := 0; d < depth && !c.Failed(); d++ {
 		verifbubble.Wait()
+		if sig, detail := verifbubble.LockOrder(); sig != "" {
+			c.Fail(mode, "lock-order-inversion:"+sig, "%s", detail)
+			return
+		}
 		type ev struct {
 			name string
 			run  func() bool
